@@ -56,14 +56,16 @@ def shape_class(text):
 
 
 def run(ctx):
+    scalar.setup_paths()       # private Coq mirror when VERIF_REPO points at a scratch copy
     quick = ctx.tier == "quick"
     corpus = corpus_inputs()
     small = scalar.boundary_inputs()
     for _, x in corpus:
         if x not in small:
             small.insert(0, x)
-    small = small + scalar.random_inputs(ctx.rng, 120 if quick else 600)
-    big = small + scalar.random_inputs(ctx.rng, 400 if quick else 30000)
+    small = small + scalar.random_inputs(ctx.rng, 120 if quick else 1500)
+    big = small + scalar.random_inputs(ctx.rng, 400 if quick else 40000)
+    scalar.EXHAUSTIVE_NATIVE["on"] = not quick     # thorough: rustc/clang run every 2^8 / 2^16 value of the narrow lowerings
     ctx.assumptions += [
         "operator semantics of the seven target languages are the elaborators of coq/theories/Scalar/Expr.v: Rust `as`/From/to_bits/from_bits/match, C and C++ casts with clang's two's-complement narrowing and implicit conversions, union punning / std::bit_cast, C# casts in the default unchecked context, Go conversions, D cast, MoonBit to_int/to_byte/reinterpret_as_*/land/- (wrapping Int), wasm i32.extend8_s/16_s; validated against rustc and clang on every run, NOT validated for C#/Go/D/MoonBit/C++ (no toolchain in this sandbox)",
         "floats are raw bit patterns (NaN canonicalisation, which the canonical ABI leaves to the host, is outside the statement); target is wasm32 (pointers/usize 32-bit)",
@@ -79,7 +81,7 @@ def run(ctx):
     # ---- every (language, direction, type, site) must have been scraped
     want = {(l, d, t, st) for l in scalar.LANGS for t in scalar.SCALARS
             for d, st in (("lower", "import-param"), ("lift", "import-result"), ("lift", "export-param"), ("lower", "export-result"))}
-    have = {(s.lang, s.dir, s.ty, s.site) for s in R.sites if s.coq}
+    have = {(s.lang, s.dir, s.ty, s.site) for s in R.sites}
     missing = sorted(want - have)
     if missing:
         ctx.tie_broken("tie", "conversion sites not scraped (%d), e.g. %r" % (len(missing), missing[:5]))
@@ -100,13 +102,18 @@ def run(ctx):
             if v["bad"] is None:
                 undecided.append(nm)
                 continue
-            x = v["bad"]
+            x, actual = v["bad"], v["bad_value"]
+            key = s.key
+            if s.dir == "lift" and s.ty == "bool" and v["bad01"] is not None:
+                # wrong already on the values a canonical host produces: a different (graver) class than
+                # "garbage in the upper bits", so it gets its own key
+                x, actual, key = v["bad01"], v["bad01_value"], s.key + ":canonical-input"
             if s.dir == "lower":
                 exp, dom = scalar.spec_lower(s.ty, x), "WIT value"
             else:
                 exp, dom = scalar.spec_lift(s.ty, x % (1 << scalar.core_bits(s.ty))), "core value (as %s)" % s.src
-            rep = viol.setdefault(s.key, {"key": s.key, "sites": [], "engine": "coq-eval"})
-            rep["sites"].append(dict(s.describe(), ident=nm, input=x, input_is=dom, expected=exp,
+            rep = viol.setdefault(key, {"key": key, "sites": [], "engine": "coq-eval"})
+            rep["sites"].append(dict(s.describe(), ident=nm, input=x, input_is=dom, expected=exp, actual=actual,
                                      mode="debug" if v["suffix"] else "release/any"))
     for nm in undecided:
         ctx.tie_broken("proof", "site %s (%r): not accepted by the normaliser and no disagreeing input among %d inputs" % (nm, R.verdicts[nm]["site"].text, len(big)))
@@ -124,17 +131,18 @@ def run(ctx):
     for ident, modes in R.native.items():
         for mode, vals in modes.items():
             nm = ident + "_dbg" if (mode == "debug" and ident + "_dbg" in R.verdicts) else ident
-            s = R.verdicts[nm]["site"]
+            s = R.verdicts[nm]["site"] if nm in R.verdicts else next(st for st in R.sites if st.ident("") == ident)
             for x, r in vals:
                 j = scalar.judge(s, x, r)
                 if j:
-                    rep = viol.setdefault(s.key, {"key": s.key, "sites": [], "engine": "native"})
+                    key = s.key + ":canonical-input" if (s.dir == "lift" and s.ty == "bool" and x in (0, 1)) else s.key
+                    rep = viol.setdefault(key, {"key": key, "sites": [], "engine": "native"})
                     if not any(e.get("native") and e["ident"] == nm for e in rep["sites"]):
                         rep["sites"].append(dict(s.describe(), ident=nm, input=x, expected=j[0], actual=j[1], native=True, mode=mode))
     for key, rep in sorted(viol.items()):
         first = rep["sites"][0]
-        ctx.violation(key, "%s: `%s` (%s, %s) maps %s=%s to something else than the canonical ABI's %s" % (
-            key, first["text"], first["site"], first["mode"], first["var"], first["input"], first["expected"]), rep)
+        ctx.violation(key, "%s: `%s` (%s, %s) maps %s=%s to %s, the canonical ABI maps it to %s" % (
+            key, first["text"], first["site"], first["mode"], first["var"], first["input"], first.get("actual"), first["expected"]), rep)
 
     # ---- proof leg
     ctx.proof_leg(TARGETS, ["Props.C14"], THEOREMS)
@@ -189,14 +197,30 @@ def replay(ctx, path):
     if "sites" not in rep:
         print("replay file names no failing input:", json.dumps(obj)[:1000])
         return 1
+    scalar.setup_paths()
     xs = sorted({s["input"] for s in rep["sites"]})
-    R = scalar.regenerate(xs, xs)
+    R = scalar.regenerate(xs, xs, native=True)
+    for lang, which, msg in R.errors:
+        print("translator: %s (%s): %s" % (lang, which, msg))
+    base_key = rep["key"].replace(":canonical-input", "")
     bad = 0
     for e in rep["sites"]:
-        cur = [(nm, v) for nm, v in R.verdicts.items() if v["site"].key == rep["key"] and v["site"].site == e["site"]
+        if e.get("native"):
+            vals = R.native.get(e["ident"].replace("_dbg", ""), {}).get(e["mode"], [])
+            site = next((st for st in R.sites if st.ident("") == e["ident"].replace("_dbg", "")), None)
+            got = dict(vals).get(e["input"])
+            if site is None or got is None:
+                print("%s: site no longer scraped / not runnable natively" % e["ident"]); bad += 1; continue
+            j = scalar.judge(site, e["input"], got)
+            print("%s (%s build, %s)  current text `%s`  input %s  expected %s  native result %s -> %s" % (
+                e["ident"], e["mode"], "rustc" if site.lang == "rust" else "clang", site.text, e["input"], e["expected"], got,
+                "STILL VIOLATES" if j else "agrees with the canonical ABI"))
+            bad += 1 if j else 0
+            continue
+        cur = [(nm, v) for nm, v in R.verdicts.items() if v["site"].key == base_key and v["site"].site == e["site"]
                and (nm.endswith("_dbg") == (e.get("mode") == "debug"))]
         if not cur:
-            print("site %s %s no longer scraped" % (rep["key"], e["site"]))
+            print("site %s %s no longer scraped or no longer parsed" % (rep["key"], e["site"]))
             bad += 1
             continue
         for nm, v in cur:
@@ -204,7 +228,8 @@ def replay(ctx, path):
             fails = (not v["check"]) and v["bad"] is not None
             print("%s  current text `%s`  [%s : %s -> %s]  input %s  expected %s  -> %s" % (
                 nm, s.text, s.var, s.src, s.dst, e["input"], e["expected"],
-                "STILL VIOLATES (first disagreeing input now: %s)" % v["bad"] if fails else "agrees with the canonical ABI (proved for all inputs)" if v["check"] else "undecided"))
+                "STILL VIOLATES (input %s gives %s)" % (v["bad"], v["bad_value"]) if fails
+                else "agrees with the canonical ABI (proved for all inputs)" if v["check"] else "undecided"))
             bad += 1 if fails or not v["check"] else 0
     return 1 if bad else 0
 
